@@ -52,6 +52,23 @@ def private_ids(fd, acc):
     pass
 
 
+import collections.abc as _abc
+
+
+class UserMap(_abc.Mapping):
+  def __init__(self, d):
+    self._d = d
+
+  def __getitem__(self, k):
+    return self._d[k]
+
+  def __iter__(self):
+    return iter(self._d)
+
+  def __len__(self):
+    return len(self._d)
+
+
 def run_seq(seed, nsteps):
   rng = random.Random(seed)
   reg = []
@@ -123,7 +140,20 @@ def run_seq(seed, nsteps):
       do({'op': 'get', 'i': i, 'k': k}, lambda: [reg[i][k]])
     elif r < 0.80 and fr:
       i, j = rng.choice(fr), anyi()
-      do({'op': 'copy', 'i': i, 'j': j}, lambda: [reg[i].copy(reg[j]) if rng.random() < 0.5 else FD.copy(reg[i], reg[j])])
+      def view(x):
+        # the additions may come as any Mapping: a read-only proxy, a ChainMap or a user Mapping over the same (still mutable) dict
+        import collections, types
+        if type(x) is not dict:
+          return x
+        q = rng.random()
+        if q < 0.5:
+          return x
+        if q < 0.7:
+          return types.MappingProxyType(x)
+        if q < 0.85:
+          return collections.ChainMap(x)
+        return UserMap(x)
+      do({'op': 'copy', 'i': i, 'j': j}, lambda: [reg[i].copy(view(reg[j])) if rng.random() < 0.5 else FD.copy(reg[i], view(reg[j]))])
     elif r < 0.86 and fr:
       i = rng.choice(fr)
       ks = list(reg[i].keys())
